@@ -406,6 +406,24 @@ def panel_configs(verif_seed):
             out.append({"recipe": {"k": "ann", "name": ann, "of": {"k": "generic", "n": n, "dtype": dt, "seed": g.randrange(1 << 20),
                                                                    "sym": "psd"}},
                         "k": g.choice([1, -1, 2, -2]), "rand": rand, "max_iters": 1})
+    # operators whose DECLARED dtype is narrower than their action: Sum takes the dtype of its first part, so real + complex
+    # is declared real while it acts (and densifies) as a complex matrix -- directly, and under wrappers without a diag rule
+    for rand in ("normal", "rademacher"):
+        mixed = {"k": "sum", "args": [{"k": "generic", "n": 4, "dtype": "f8", "seed": g.randrange(1 << 20), "sym": "gen"},
+                                      {"k": "generic", "n": 4, "dtype": "c16", "seed": g.randrange(1 << 20), "sym": "gen"}]}
+        out.append({"recipe": mixed, "k": g.choice([0, 1, -1]), "rand": rand, "max_iters": 1})
+        out.append({"recipe": {"k": "transpose_cls", "of": mixed}, "k": g.choice([0, 1]), "rand": rand, "max_iters": 1})
+        out.append({"recipe": {"k": "sum", "args": [{"k": "generic", "n": 4, "dtype": "f4", "seed": g.randrange(1 << 20), "sym": "gen"},
+                                                    {"k": "generic", "n": 4, "dtype": "f8", "seed": g.randrange(1 << 20), "sym": "gen"}]},
+                    "k": 0, "rand": rand, "max_iters": 1})
+    out.append({"exact": True, "recipe": {"k": "sum", "args": [{"k": "diag", "n": 4, "dtype": "f8", "seed": g.randrange(1 << 20), "pos": False},
+                                                              {"k": "diag", "n": 4, "dtype": "c16", "seed": g.randrange(1 << 20),
+                                                               "pos": False}]},
+                "k": 0, "rand": "rademacher", "max_iters": 1})
+    out.append({"exact": True, "recipe": {"k": "transpose_cls", "of": {"k": "sum", "args": [
+        {"k": "generic", "n": 3, "dtype": "f8", "seed": g.randrange(1 << 20), "sym": "diagm"},
+        {"k": "generic", "n": 3, "dtype": "c16", "seed": g.randrange(1 << 20), "sym": "diagm"}]}},
+                "k": 0, "rand": "rademacher", "max_iters": 1})
     # probe blocks of more than 2^20 entries (n x 100 with n > 10485), in every precision: exactness with Rademacher probes
     # on a Diagonal operator (no statistics involved), and unbiasedness with normal probes (fewer keys, wider threshold)
     for dt in ("f4", "f8", "c8"):
